@@ -395,3 +395,10 @@ func (r *Run) CurrentTask() string {
 	defer r.mu.Unlock()
 	return r.gname[g]
 }
+
+// PauseYields switches every yield site off (for reference computations made
+// by a task itself) and returns the previous density for ResumeYields.
+func (r *Run) PauseYields() int { d := r.siteDen; r.siteDen = 0; return d }
+
+// ResumeYields restores the density returned by PauseYields.
+func (r *Run) ResumeYields(d int) { r.siteDen = d }
